@@ -4,7 +4,7 @@ import time
 
 from . import core
 
-ELEMS = {"K1": "vf::K1", "K2": "vf::K2", "int": "int", "double": "double", "NTRTM": "vf::NTR_TM", "TC1": "vf::TC1", "TC4": "vf::TC4", "TC8": "vf::TC8", "TC12": "vf::TC12", "TR": "vf::TR", "NTR": "vf::NTR"}
+ELEMS = {"TC16A": "vf::TC16A", "K1": "vf::K1", "K2": "vf::K2", "int": "int", "double": "double", "NTRTM": "vf::NTR_TM", "TC1": "vf::TC1", "TC4": "vf::TC4", "TC8": "vf::TC8", "TC12": "vf::TC12", "TR": "vf::TR", "NTR": "vf::NTR"}
 
 
 def alloc_expr(kind, elem):
@@ -112,6 +112,8 @@ QUICK = [
     VCfg("v", 0, "int", "realloc", "uint16_t", "s3"),
     # C++20: operator<=>, erase / erase_if
     VCfg("s", 3, "NTR", "basic", "uint32_t", "v", std="c++20"),
+    # over-aligned element (16 bytes / alignas 16) next to an 8-bit size_type: placement of the inline slots (UBSan alignment check)
+    VCfg("s", 3, "TC16A", "basic", "uint8_t", "f3"),
 ]
 
 THOROUGH_EXTRA = [
@@ -138,6 +140,8 @@ THOROUGH_EXTRA = [
     VCfg("f", 3, "NTR", "none", "uint8_t", "sx3"),
     VCfg("f", 8, "TC1", "none", "uint8_t", "s4"),
     VCfg("f", 16, "TR", "none", "uint8_t", "f8"),
+    VCfg("f", 5, "TC16A", "none", "uint8_t", "s3"),
+    VCfg("v", 0, "TC16A", "amc", "uint16_t", "s8_4"),
     # other language levels and the second compiler
     VCfg("s", 4, "NTR", "basic", "uint32_t", "v", std="c++20"),
     VCfg("s", 3, "TR", "realloc", "uint32_t", "v", std="c++20"),
